@@ -189,7 +189,7 @@ activities, other pending failures, wait_any sets, dying actors.
 Composition of `linkOff_fails_every_user` / `hostOff_fails_every_user`, the kill loop of `HostImpl::turn_off`
 (`ActorImpl::exit` of every actor of the host, which may itself finish `k`), and `handle_ended_reports_every_failed_action`.
 The third row of the spec table — a communication whose *peer's* host fails, where the action is failed by the dying peer's
-`exit()` — is `failure_reaches_all_waiters_peer_host_partial` below. -/
+`exit()` — is `failure_reaches_all_waiters_peer_host` below. -/
 theorem failure_reaches_all_waiters (s : St) (e : Ev) (k a : Nat) (hk : k < s.nActs)
     (hrun : (s.acts k).action = some .started) (hit : HitBy s k e)
     (ha : Answerable s a) (hs : Survives s a e) (hm : a ∈ (s.acts k).simcalls) :
@@ -237,14 +237,16 @@ host (the peer, a third party, a wait_any) has been answered by the end of the m
 iteration — or an assertion fired.  Composition through the kill loop of `HostImpl::turn_off`: the kills of the other actors
 of the host leave `k` held or doom it, `b`'s own `exit()` cancels it (first loop: finished on the spot; second loop: FAILED and
 queued), `handle_ended_actions` finishes it.
-`_partial`: the hypothesis `Private s h b` (no other actor of `h` waits on an activity on which `b` is registered) is exactly what
-the finding `host-off-marks-peer-dying-without-exit` makes necessary on the current code: without it `b` can be marked dying by
-the `finish` of a co-hosted actor's synchro and then skipped by `turn_off`, so that `k` is never cancelled and `a` is told at
-`k`'s natural completion date at best.  With the proposed fix the hypothesis can be dropped.  (Detached sends — not in anybody's
-`activities_` — and `Comm::sendto` comms of maestro's list are not covered by this statement.) -/
-theorem failure_reaches_all_waiters_peer_host_partial (s : St) (h k a b : Nat) (hon : s.hostOn h = true)
+Full strength since the fix of `host-off-marks-peer-dying-without-exit`: before it the statement needed the hypothesis
+`Private s h b` (no other actor of `h` waits on an activity on which `b` is registered), because `b` could be marked dying by
+the `finish` of a co-hosted actor's synchro (`unregister_first_simcall` called `set_wannadie()`) and then be skipped by
+`turn_off`, so that `k` was never cancelled and `a` was told at `k`'s natural completion date at best.
+`unregister_first_simcall` no longer marks anybody (`wdEq_finish`, Wd.lean), so the kill loop reaches every live actor of the
+host.  (Detached sends — not in anybody's `activities_` — and `Comm::sendto` comms of maestro's list are not the subject of
+this statement: see `no_orphan_block`.) -/
+theorem failure_reaches_all_waiters_peer_host (s : St) (h k a b : Nat) (hon : s.hostOn h = true)
     (hb : b < s.nActors) (hbh : (s.actors b).host = h) (hbe : (s.actors b).ended = false)
-    (hbw : (s.actors b).wannadie = false) (hheld : k ∈ (s.actors b).activities) (hp : Private s h b)
+    (hbw : (s.actors b).wannadie = false) (hheld : k ∈ (s.actors b).activities)
     (hk : (s.acts k).kind = .comm) (hrun : (s.acts k).state = .running) (hact : (s.acts k).action = some .started)
     (ha : Answerable s a) (hah : (s.actors a).host ≠ h) (hm : a ∈ (s.acts k).simcalls) :
     DoneR s (run s [.hostOff h, .handleEnded]) a k (.exc .net) := by
@@ -258,7 +260,7 @@ theorem failure_reaches_all_waiters_peer_host_partial (s : St) (h k a b : Nat) (
       refine ⟨x1, ?_, x3⟩
       simp [upd, hah, x2]
     have p1 : HoldS ({ s with hostOn := upd s.hostOn h false } : St) b a k := ⟨ha1, hm, hk, hact, hrun, hheld⟩
-    have ho1 : HolderOK ({ s with hostOn := upd s.hostOn h false } : St) h b := ⟨hbh, hbe, hbw, hp⟩
+    have ho1 : HolderOK ({ s with hostOn := upd s.hostOn h false } : St) h b := ⟨hbh, hbe, hbw⟩
     obtain ⟨e4, r4⟩ := res_hostOff_comm ({ s with hostOn := upd s.hostOn h false } : St) h k a b (by simp [upd]) hb p1 ho1
     generalize maestroPhase h (killPhase h (cpuPhase h ({ s with hostOn := upd s.hostOn h false } : St))) = t4 at e4 r4
     by_cases hc2 : t4.crashed = true
@@ -337,44 +339,51 @@ theorem killed_on_host_off (s : St) (h a : Nat) (hon : s.hostOn h = true) (ha : 
     rw [e2]
     exact (mono_handleEnded _ _).wd a h1
 
-/-! Full-strength second half — **`ActorImpl::exit()` runs for every live actor of the host** (its waiting synchros are
-cancelled and finished, its leftover activities cancelled, it is put back in the run list to die):
-`s.hostOn h → a < s.nActors → (s.actors a).host = h → ¬ ended → ¬ wannadie → newIn s (hostOff s h) (.kill a)`.
-This is FALSE on the current code (`killed_on_host_off_exit_counterexample`, finding
-`host-off-marks-peer-dying-without-exit`): when an earlier actor of the same host is killed, the `finish()` of its
-waiting synchro runs `unregister_first_simcall` on a co-hosted peer, which *marks* the peer dying
-(`issuer->set_wannadie()`); `HostImpl::turn_off` then skips it (`ActorImpl::kill` ignores `wannadie()` actors): the peer
-is never rescheduled, never runs its on_exit callbacks, its other activities are never cancelled.
-Proved: the statement under the exact excluding hypothesis `Private s h a` (no other actor of `h` waits on an activity
-on which `a` is registered). -/
-theorem killed_on_host_off_exit_partial (s : St) (h a : Nat) (hon : s.hostOn h = true) (ha : a < s.nActors)
-    (hh : (s.actors a).host = h) (he : (s.actors a).ended = false) (hw : (s.actors a).wannadie = false)
-    (hp : Private s h a) : newIn s (hostOff s h) (.kill a) :=
-  hostOff_kill_new s h a hon ha hh he hw hp
+/-- **`ActorImpl::exit()` runs for every live actor of the host** (second half of killed_on_host_off, full strength): for
+EVERY state, when a host that is on is turned off, every actor of that host that has not ended and is not already dying goes
+through `ActorImpl::exit()` inside `Host::turn_off` (its waiting synchros are cancelled and finished, its leftover activities
+cancelled, it is put back in the run list to die and run its on_exit callbacks) — whatever the other actors of the host wait
+on, in particular when two actors of the host wait on the same communication.
+Before the fix of `host-off-marks-peer-dying-without-exit` this was FALSE (witness: `killed_on_host_off_exit_regression`
+below, corpus.txt): when an earlier actor of the same host was killed, the `finish()` of its waiting synchro ran
+`unregister_first_simcall` on a co-hosted peer, which *marked* the peer dying (`issuer->set_wannadie()`);
+`HostImpl::turn_off` then skipped it (`ActorImpl::kill` ignores `wannadie()` actors): the peer was never rescheduled, never
+ran its on_exit callbacks, its other activities were never cancelled.  The statement then needed the hypothesis
+`Private s h a`; `unregister_first_simcall` now only declines to answer such an issuer (`wdEq_finish`). -/
+theorem killed_on_host_off_exit (s : St) (h a : Nat) (hon : s.hostOn h = true) (ha : a < s.nActors)
+    (hh : (s.actors a).host = h) (he : (s.actors a).ended = false) (hw : (s.actors a).wannadie = false) :
+    newIn s (hostOff s h) (.kill a) :=
+  hostOff_kill_new s h a hon ha hh he hw
 
-/-- two actors of host 0 in a rendez-vous with each other; host 0 is turned off: actor 0 is killed, `finish` of the
-comm marks actor 1 dying, `turn_off` then skips actor 1: `ActorImpl::exit` never runs for it (on the real library the
-run ends with actor 1 reported in a deadlock, its on_exit callback never called: corpus.txt) -/
-theorem killed_on_host_off_exit_counterexample :
+/-- Regression (witness of the fixed defect `host-off-marks-peer-dying-without-exit`): two actors of host 0 in a rendez-vous
+with each other; host 0 is turned off.  Actor 0 is killed first; the `finish` of the comm does not answer actor 1 (its host is
+off) and — since the fix — does not mark it either, so `turn_off` kills it in turn: `ActorImpl::exit` runs for BOTH actors.
+(With `issuer->set_wannadie()` in `unregister_first_simcall` the model gave `Obs.kill 1 ∉ (hostOff s 0).obs`, and the real
+library ended with actor 1 reported in a deadlock, its on_exit callback never called: corpus.txt.) -/
+theorem killed_on_host_off_exit_regression :
     let s := run (init [0, 0] (fun _ _ => [])) [.isendWait 0 0, .irecvWait 1 0]
     s.hostOn 0 = true ∧ (s.actors 1).host = 0 ∧ (s.actors 1).ended = false ∧ (s.actors 1).wannadie = false ∧
-    ((hostOff s 0).actors 1).wannadie = true ∧ Obs.kill 0 ∈ (hostOff s 0).obs ∧ Obs.kill 1 ∉ (hostOff s 0).obs := by
-  decide
+    ¬ Private s 0 1 ∧
+    ((hostOff s 0).actors 1).wannadie = true ∧ Obs.kill 0 ∈ (hostOff s 0).obs ∧ Obs.kill 1 ∈ (hostOff s 0).obs := by
+  refine ⟨by decide, by decide, by decide, by decide, ?_, by decide, by decide, by decide⟩
+  intro hp
+  exact hp 0 0 (by decide) (by decide) (by decide) (by decide)
 
-/-- non-vacuity of `killed_on_host_off` / `killed_on_host_off_exit_partial`: sender on host 0, receiver on host 1 -/
+/-- non-vacuity of `killed_on_host_off` / `killed_on_host_off_exit`: sender on host 0, receiver on host 1 -/
 example :
     let s := run (init [0, 1] (fun _ _ => [0])) [.isendWait 0 0, .irecvWait 1 0]
     s.hostOn 0 = true ∧ 0 < s.nActors ∧ (s.actors 0).host = 0 ∧ (s.actors 0).ended = false ∧
-    (s.actors 0).wannadie = false ∧ Private s 0 0 := by
+    (s.actors 0).wannadie = false := by
+  decide
+
+/-- non-vacuity in the case the fix is about: the two actors of the rendez-vous live on the failing host (the second one
+is `Private`-less: it is registered on the comm the first one waits on) -/
+example :
+    let s := run (init [0, 0] (fun _ _ => [])) [.isendWait 0 0, .irecvWait 1 0]
+    s.hostOn 0 = true ∧ 1 < s.nActors ∧ (s.actors 1).host = 0 ∧ (s.actors 1).ended = false ∧
+    (s.actors 1).wannadie = false ∧ newIn s (hostOff s 0) (.kill 1) := by
   refine ⟨by decide, by decide, by decide, by decide, by decide, ?_⟩
-  intro c j hc hh hj
-  -- the only other actor lives on host 1; the unallocated actor records wait on nothing
-  by_cases h1 : c = 1
-  · subst h1; exact absurd hh (by decide)
-  · have : ((run (init [0, 1] (fun _ _ => [0])) [.isendWait 0 0, .irecvWait 1 0]).actors c).waiting = [] := by
-      simp [run, step, init, alive, isend, irecv, waitOn, register, findMatching, commStart, startAsserts, St.setActor,
-        St.setAct, upd, mboxRemove, terminal, hc, h1]
-    rw [this] at hj; cases hj
+  unfold newIn; decide
 
 /-! ### no_orphan_block
 Full-strength statement: in every reachable state with an empty failed-action set, every live blocked actor waits
@@ -424,8 +433,8 @@ failed — (i) a detached send in flight whose sender's host fails (nobody cance
 completion date, see NOTES "late reports"); (ii) a communication cancelled while still unmatched (it has no action: a
 third party that waits on somebody else's unmatched comm is not woken by the owner's death); (iii) an execution whose
 action was cancelled without any host failure (its waiters are answered too, with CancelException: not a failure kind of
-the spec table, so it is outside `Hit`); and the activities of an actor marked dying without `exit()`
-(`killed_on_host_off_exit_counterexample`). -/
+the spec table, so it is outside `Hit`).  (Before the fix of `host-off-marks-peer-dying-without-exit` also: the
+activities of an actor marked dying without `exit()`, see `killed_on_host_off_exit_regression`.) -/
 theorem no_orphan_block (hosts : List Nat) (route : Nat → Nat → List Nat) (es : List Ev) :
     NoLost (run (init hosts route) es) ∧
     ∀ k a, ((run (init hosts route) es).acts k).action = some .failed → Hit (run (init hosts route) es) k →
